@@ -32,6 +32,7 @@ type c01DedupEvent struct {
 	DocID   string
 	Seq     uint64
 	Rev     string
+	Del     bool
 	Recent  []uint64
 	Unused  []uint64
 	Chans   channels.ChannelMap
@@ -46,6 +47,7 @@ type c01Delivery struct {
 	Seq     uint64
 	DocID   string
 	Rev     string
+	Del     bool
 	Chans   channels.ChannelMap
 }
 
@@ -66,7 +68,7 @@ func (rc *c01RecCache) AddToCache(ctx context.Context, change *LogEntry) []chann
 		}
 	}
 	rc.mu.Lock()
-	rc.log = append(rc.log, c01Delivery{Coll: change.CollectionID, Seq: change.Sequence, DocID: change.DocID, Rev: change.RevID, Chans: cm})
+	rc.log = append(rc.log, c01Delivery{Coll: change.CollectionID, Seq: change.Sequence, DocID: change.DocID, Rev: change.RevID, Del: change.Flags&channels.Deleted != 0, Chans: cm})
 	rc.mu.Unlock()
 	return rc.ChannelCache.AddToCache(ctx, change)
 }
@@ -79,6 +81,7 @@ type c01Gate struct {
 	buf     map[string][]sgbucket.FeedEvent
 	callMu  sync.Mutex // serialises every DocChanged call: the snapshots below are exact
 	events  []c01DedupEvent
+	deletedRebuilt map[uint64]bool // sequences of deduplicated DELETIONS reconstructed as removal entries
 }
 
 func c01CopyEvent(ev sgbucket.FeedEvent) sgbucket.FeedEvent {
@@ -106,7 +109,7 @@ func (g *c01Gate) deliver(ev sgbucket.FeedEvent, dt DocumentType, deduped int) {
 	if dt == DocTypeDocument && strings.HasPrefix(string(ev.Key), "doc") && ev.DataType&base.MemcachedDataTypeXattr != 0 {
 		if _, sd, err := UnmarshalDocumentSyncDataFromFeed(ev.Value, ev.DataType, "", false); err == nil && sd != nil {
 			cc := &g.s.db.changeCache
-			e := c01DedupEvent{DocID: string(ev.Key), Seq: sd.Sequence, Rev: sd.GetRevTreeID(), Recent: append([]uint64{}, sd.RecentSequences...),
+			e := c01DedupEvent{DocID: string(ev.Key), Seq: sd.Sequence, Rev: sd.GetRevTreeID(), Del: sd.Flags&channels.Deleted != 0, Recent: append([]uint64{}, sd.RecentSequences...),
 				Unused: append([]uint64{}, sd.UnusedSequences...), Chans: sd.Channels, Next: cc.getNextSequence(), Coll: ev.CollectionID, Deduped: deduped}
 			e.Doc, _ = strconv.ParseUint(strings.TrimPrefix(e.DocID, "doc"), 10, 64)
 			for _, q := range sd.RecentSequences {
@@ -115,6 +118,24 @@ func (g *c01Gate) deliver(ev sgbucket.FeedEvent, dt DocumentType, deduped int) {
 				}
 			}
 			g.events = append(g.events, e)
+			// sequences DocChanged is about to reconstruct as removals made by a DELETION
+			cur := e.Seq
+			if len(e.Unused) > 0 {
+				cur = e.Unused[0]
+			}
+			for _, q := range e.Recent {
+				sk := false
+				for _, k := range e.Skipped {
+					sk = sk || k == q
+				}
+				if q < cur && (q >= e.Next || sk) {
+					for _, rm := range e.Chans {
+						if rm != nil && rm.Seq == q && rm.Deleted {
+							g.deletedRebuilt[q] = true
+						}
+					}
+				}
+			}
 		}
 	}
 	g.orig(ev, dt)
@@ -157,7 +178,7 @@ func (s *c01Sys) installGate() {
 	s.impl, _ = cc.channelCache.(*channelCacheImpl)
 	s.recCache = &c01RecCache{ChannelCache: cc.channelCache}
 	cc.channelCache = s.recCache
-	s.gate = &c01Gate{s: s, orig: cc.DocChanged, held: map[string]bool{}, buf: map[string][]sgbucket.FeedEvent{}}
+	s.gate = &c01Gate{s: s, orig: cc.DocChanged, held: map[string]bool{}, buf: map[string][]sgbucket.FeedEvent{}, deletedRebuilt: map[uint64]bool{}}
 	s.db.mutationListener.OnChangeCallback = s.gate.onEvent
 }
 
@@ -197,7 +218,11 @@ func (s *c01Sys) chanMapCoq(cm channels.ChannelMap, withRev bool) (string, strin
 		case rm == nil:
 			l = append(l, ent{id, fmt.Sprintf("(%d, None)", id), name})
 		case withRev:
-			l = append(l, ent{id, fmt.Sprintf("(%d, Some (%d, %d))", id, rm.Seq, s.revID(rm.Rev.RevTreeID)), fmt.Sprintf("%s-@%d", name, rm.Seq)})
+			dl := ""
+			if rm.Deleted {
+				dl = "x"
+			}
+			l = append(l, ent{id, fmt.Sprintf("(%d, Some (%d, %d, %s))", id, rm.Seq, s.revID(rm.Rev.RevTreeID), cqBool(rm.Deleted)), fmt.Sprintf("%s-@%d%s", name, rm.Seq, dl)})
 		default:
 			l = append(l, ent{id, fmt.Sprintf("(%d, Some %d)", id, rm.Seq), fmt.Sprintf("%s-@%d", name, rm.Seq)})
 		}
@@ -248,7 +273,7 @@ func (s *c01Sys) dedupCheck() {
 	nontrivial := false
 	for _, e := range events {
 		cm, cd := s.chanMapCoq(e.Chans, true)
-		evCoq = append(evCoq, fmt.Sprintf("(%d, SD %d %d %s %s %s, %d, %s)", e.Doc, e.Seq, s.revID(e.Rev), cqNList(e.Recent), cqNList(e.Unused), cm, e.Next, cqNList(e.Skipped)))
+		evCoq = append(evCoq, fmt.Sprintf("(%d, SD %d %d %s %s %s %s, %d, %s)", e.Doc, e.Seq, s.revID(e.Rev), cqBool(e.Del), cqNList(e.Recent), cqNList(e.Unused), cm, e.Next, cqNList(e.Skipped)))
 		desc.Events = append(desc.Events, fmt.Sprintf("%s #%d recent%v unused%v channels%s next=%d skipped%v deduplicated=%d", e.DocID, e.Seq, e.Recent, e.Unused, cd, e.Next, e.Skipped, e.Deduped))
 		if e.Deduped > 0 {
 			nontrivial = true
@@ -258,8 +283,8 @@ func (s *c01Sys) dedupCheck() {
 		d := first[q]
 		n, _ := strconv.ParseUint(strings.TrimPrefix(d.DocID, "doc"), 10, 64)
 		cm, cd := s.chanMapCoq(d.Chans, false)
-		obsCoq = append(obsCoq, fmt.Sprintf("DE %d %d %d %d %s", d.Coll, d.Seq, n, s.revID(d.Rev), cm))
-		desc.Delivered = append(desc.Delivered, fmt.Sprintf("collection %d #%d %s channels%s", d.Coll, d.Seq, d.DocID, cd))
+		obsCoq = append(obsCoq, fmt.Sprintf("DE %d %d %d %d %s %s", d.Coll, d.Seq, n, s.revID(d.Rev), cqBool(d.Del), cm))
+		desc.Delivered = append(desc.Delivered, fmt.Sprintf("collection %d #%d %s deleted=%v channels%s", d.Coll, d.Seq, d.DocID, d.Del, cd))
 	}
 	s.rec.Case("system", "feed-events", fmt.Sprintf("CDedup %d %s %s", coll, cqList(evCoq), cqList(obsCoq)), desc, nontrivial)
 
@@ -353,4 +378,37 @@ func (s *c01Sys) systemCacheInv(phase string) {
 			}
 		}
 	}
+}
+
+// Known shape of a genuine defect of the unchanged code (C01_Refuted.v): the removal entry reconstructed for a
+// deduplicated DELETION lacks the Deleted flag, so a row served from a warm cache says {removed} where the channel
+// query -- and the specification -- say {deleted, removed}.  Such a row is REPORTED (its own stable signature) and
+// then carried on with the flag of the specification, so that this one defect does not also surface as unrelated
+// cache-independence / correspondence failures.  Only rows at sequences the gate saw being reconstructed from a
+// deletion are touched; any other difference stays a failure of the generic monitors.
+func (s *c01Sys) normalizeRebuiltDeletion(what string, rows []c01Row) []c01Row {
+	if s.gate == nil {
+		return rows
+	}
+	for i, r := range rows {
+		if r.Del || len(r.Rm) == 0 || r.ID > 100 {
+			continue
+		}
+		s.gate.callMu.Lock()
+		rebuilt := s.gate.deletedRebuilt[r.S]
+		s.gate.callMu.Unlock()
+		histDel := false
+		for _, h := range s.hist {
+			if h.Seq == r.S && h.Doc == r.ID && h.Del {
+				histDel = true
+			}
+		}
+		if rebuilt && histDel {
+			s.fail("dedup_reconstruction", "deduplicated-deletion-removal-lacks-deleted-flag", map[string]any{"history": s.histDesc(), "request": what, "cache": s.cfg},
+				fmt.Sprintf("row %s: doc%d was DELETED at #%d (leaving the channels %v); that mutation was deduplicated on the feed and the removal entry reconstructed from recent_sequences carries no Deleted flag: the warm cache answers without deleted:true, a cold cache (channel query) with it", r, r.ID, r.S, c01ChanStrings(r.Rm)))
+			rows[i].Del = true
+			s.rec.Err("row-of-rebuilt-deletion-normalised")
+		}
+	}
+	return rows
 }
